@@ -32,8 +32,11 @@ fn access(rng: &mut Rng) -> (Access<()>, &'static str) {
 impl World {
     pub async fn new(n_peers: usize, rng: &mut Rng) -> World {
         let mut peers = Vec::new();
+        // At least one peer (usually most) rotates its pre-key with every key-bundle message.
+        let must_rotate = rng.usize_below(n_peers);
         for i in 0..n_peers {
-            peers.push(Peer::new(i, rng).await);
+            let rotate = i == must_rotate || rng.chance(0.6);
+            peers.push(Peer::new(i, rng, rotate).await);
         }
         World {
             peers,
@@ -136,6 +139,19 @@ impl World {
             out.brief()
         ));
         j.res.bump("redeliveries", 1);
+        if let p2panda_spaces::SpacesArgs::KeyBundle { .. } = args_of(&msg) {
+            // Did this peer meanwhile process a newer, different bundle of the same author?
+            let mine = args_cbor_hex(args_of(&msg));
+            let newer = self.log[i + 1..].iter().any(|m| {
+                m.header.verifying_key == msg.header.verifying_key
+                    && matches!(args_of(m), p2panda_spaces::SpacesArgs::KeyBundle { .. })
+                    && args_cbor_hex(args_of(m)) != mine
+                    && matches!(self.peers[p].first.get(&m.hash), Some(First::Ok))
+            });
+            if newer {
+                j.res.bump("older_key_bundle_redelivered_after_newer_one", 1);
+            }
+        }
         let interesting = matches!(out, Outcome::Panic { .. })
             || !matches!(&out, Outcome::Ok { events, .. } if events.is_empty())
             || before != after;
@@ -393,8 +409,8 @@ pub async fn random_local_step(w: &mut World, p: usize, rng: &mut Rng, res: &mut
         36..=45 => w.op_space_member(p, false, rng, res).await,
         46..=53 => w.op_group_member(p, true, rng, res).await,
         54..=58 => w.op_group_member(p, false, rng, res).await,
-        59..=70 => w.op_repair(p, res).await,
-        71..=73 => w.op_key_bundle(p).await,
+        59..=68 => w.op_repair(p, res).await,
+        69..=78 => w.op_key_bundle(p).await,
         _ => w.op_publish(p, rng, res).await,
     }
 }
@@ -444,6 +460,19 @@ pub async fn run_case(seed: u64, case: u64, want_sample: bool) -> CaseResult {
             }
         }
     }
+    // Key-bundle rotation over time: one or two authors publish 1-3 further bundles, receivers
+    // process them in between, so that older bundle messages get re-delivered after newer ones.
+    for _ in 0..1 + rng.usize_below(2) {
+        let author = rng.usize_below(n_peers);
+        for _ in 0..1 + rng.usize_below(3) {
+            w.op_key_bundle(author).await;
+            let p = rng.usize_below(n_peers);
+            w.sync_some(&mut j, p, usize::MAX / 2).await;
+            if rng.chance(0.5) {
+                w.redeliver_random(&mut j, &mut rng).await;
+            }
+        }
+    }
     // Everybody catches up, repairs once, catches up again.
     for p in 0..n_peers {
         w.sync_some(&mut j, p, usize::MAX / 2).await;
@@ -475,6 +504,21 @@ pub async fn run_case(seed: u64, case: u64, want_sample: bool) -> CaseResult {
     res.keys.push(if nontrivial { Some(key) } else { None });
     res.bump("histories_nontrivial", nontrivial as u64);
     res.bump("log_messages", w.log.len() as u64);
+    {
+        use std::collections::{BTreeMap, BTreeSet};
+        let mut per_author: BTreeMap<String, BTreeSet<String>> = BTreeMap::new();
+        for m in &w.log {
+            if let p2panda_spaces::SpacesArgs::KeyBundle { .. } = args_of(m) {
+                per_author
+                    .entry(m.header.verifying_key.to_hex())
+                    .or_default()
+                    .insert(args_cbor_hex(args_of(m)));
+            }
+        }
+        let rotating = per_author.values().filter(|s| s.len() >= 2).count() as u64;
+        res.bump("authors_with_two_or_more_distinct_key_bundles", rotating);
+        res.bump("histories_with_key_bundle_rotation", (rotating > 0) as u64);
+    }
     for k in &kinds {
         res.bump(&format!("histories_with_judged_kind.{k}"), 1);
     }
